@@ -207,6 +207,8 @@ def r15_4(ctx):
                 "if start > end:\n    result.extend(list(range(end, start + 1)))\nelse:\n    result.extend(list(range(start, end + 1)))",
                 "if start > end:\n    result.extend(range(end, start + 1))\nelse:\n    result.extend(range(start, end + 1))",
                 "result.extend(range(min(start, end), max(start, end) + 1))",
+                "if start > end:\n    start, end = (end, start)\nresult.extend(list(range(start, end + 1)))",
+                "if start > end:\n    start, end = (end, start)\nresult.extend(range(start, end + 1))",
             )
             or (
                 any_of("lo, hi = (end, start) if start > end else (start, end)", "lo, hi = (min(start, end), max(start, end))", "lo, hi = sorted((start, end))")
